@@ -29,7 +29,7 @@ def WideDiv : Prop :=
   (∀ (prof : Profile) (x : Int) (p : Nat) (y : Int), (I128_MIN < x ∧ x ≤ I128_MAX) → p ≤ 38 → (0 < y ∧ y ≤ I128_MAX) →
     i128ShiftedDivModFloor prof x p y =
       .ok (if ((x * 10 ^ p).natAbs / y.natAbs : Nat) ≤ I128_MAX.toNat then some ((x * 10 ^ p) / y, (x * 10 ^ p) % y) else none)) ∧
-  (∀ (prof : Profile) (x : Int) (p : Nat) (y : Int), (I128_MIN < x ∧ x ≤ I128_MAX) → p ≤ 38 → (I128_MIN < y ∧ y < 0) →
+  (∀ (prof : Profile) (x : Int) (p : Nat) (y : Int), (I128_MIN < x ∧ x ≤ I128_MAX) → p ≤ 38 → (I128_MIN ≤ y ∧ y < 0) →
     i128ShiftedDivModFloor prof x p y =
       .ok (if ((x * 10 ^ p).natAbs / y.natAbs : Nat) ≤ I128_MAX.toNat
         then some ((-(x * 10 ^ p)) / (-y), -((-(x * 10 ^ p)) % (-y))) else none))
@@ -65,7 +65,7 @@ theorem pow_split (k j : Nat) (h : j ≤ k) : (10 : Int) ^ k = (10 : Int) ^ (k -
 
 /-- the continuation of the divisor-scaled branch after the sign-normalised floor division -/
 theorem gt_tail (prof : Profile) (tm : Mode) (a' b' : Int) (n s : Nat)
-    (ha' : I128_MIN < a' ∧ a' ≤ I128_MAX) (hb' : 0 < b' ∧ b' ≤ I128_MAX) (hs : 1 ≤ s ∧ s ≤ 18) :
+    (ha' : I128_MIN < a' ∧ a' ≤ I128_MAX) (hb' : 0 < b' ∧ b' ≤ I128_MAX + 1) (hs : 1 ≤ s ∧ s ≤ 18) :
     Spec.allowedChecked (Spec.valFit (Spec.specRound tm a' (b' * (10 : Int) ^ s)) n)
       (outOptInt n (do
         let t ← tenPow s
@@ -140,7 +140,7 @@ theorem gt_tail (prof : Profile) (tm : Mode) (a' b' : Int) (n s : Nat)
 
 
 theorem checkedDivRounded_spec (hw : WideDiv) (prof : Profile) (tm : Mode) (a : Int) (p : Nat) (b : Int) (q n : Nat)
-    (ha : I128_MIN < a ∧ a ≤ I128_MAX) (hb : I128_MIN < b ∧ b ≤ I128_MAX) (hb0 : b ≠ 0)
+    (ha : I128_MIN < a ∧ a ≤ I128_MAX) (hb : I128_MIN ≤ b ∧ b ≤ I128_MAX) (hb0 : b ≠ 0)
     (hp : p ≤ 18) (hq : q ≤ 18) (hn : n ≤ 18) :
     Spec.allowedChecked (specDivCore tm a p b q n) (outOptInt n (checkedDivRounded prof tm a p b q n)) = true := by
   unfold checkedDivRounded specDivCore
@@ -182,7 +182,7 @@ theorem checkedDivRounded_spec (hw : WideDiv) (prof : Profile) (tm : Mode) (a : 
       · simp only [hneg, if_false]
         rw [hw.1 prof a (n + q - p) b ha hs38 (by omega)]
         simp only [Outcome.bind_ok]
-        have key := wide_tail_abs tm (a * (10 : Int) ^ (n + q - p)) b n (by omega) hb.2
+        have key := wide_tail_abs tm (a * (10 : Int) ^ (n + q - p)) b n (by omega) (by omega)
         by_cases ht : ((a * (10 : Int) ^ (n + q - p)).natAbs / b.natAbs : Nat) ≤ I128_MAX.toNat
         · simp only [ht, if_true, Option.bind_some] at key ⊢
           cases hr : roundQuot tm (a * 10 ^ (n + q - p) / b) (a * 10 ^ (n + q - p) % b).natAbs b.natAbs none with
@@ -246,7 +246,7 @@ theorem checkedDivRounded_spec (hw : WideDiv) (prof : Profile) (tm : Mode) (a : 
         · omega) (pow10_pos _)
     rw [hspec]
     by_cases hneg : b < 0
-    · rw [i128DivModFloor_neg prof a b ha hneg hb.1]
+    · rw [i128DivModFloor_neg' prof a b ha hneg hb.1]
       simp only [Outcome.bind_ok]
       have hsp : Spec.specRoundQ tm a (b * (10 : Int) ^ (p - (n + q))) =
           Spec.specRound tm (-a) (-b * (10 : Int) ^ (p - (n + q))) := by
@@ -266,7 +266,7 @@ theorem checkedDivRounded_spec (hw : WideDiv) (prof : Profile) (tm : Mode) (a : 
         have : 0 < b * (10 : Int) ^ (p - (n + q)) := Int.mul_pos (by omega) hts
         exact specRoundQ_pos tm a _ this
       rw [hsp]
-      exact gt_tail prof tm a b n (p - (n + q)) ha ⟨by omega, hb.2⟩ hs
+      exact gt_tail prof tm a b n (p - (n + q)) ha ⟨by omega, by omega⟩ hs
 
 theorem specDivCore_shape (tm : Mode) (a : Int) (p : Nat) (b : Int) (q n : Nat) :
     specDivCore tm a p b q n ≠ .divzero ∧ specDivCore tm a p b q n ≠ .none ∧ specDivCore tm a p b q n ≠ .nfrac :=
@@ -288,7 +288,7 @@ theorem op_of_kernel (e : Spec.Exp) (n : Nat) (r : Outcome (Option Int))
 
 /-- the common body of the four `div_rounded` shapes after the guards -/
 theorem div_rounded_body (hw : WideDiv) (prof : Profile) (tm : Mode) (a : Int) (p : Nat) (b : Int) (q n : Nat)
-    (ha : I128_MIN < a ∧ a ≤ I128_MAX) (hb : I128_MIN < b ∧ b ≤ I128_MAX) (hb0 : b ≠ 0)
+    (ha : I128_MIN < a ∧ a ≤ I128_MAX) (hb : I128_MIN ≤ b ∧ b ≤ I128_MAX) (hb0 : b ≠ 0)
     (hp : p ≤ 18) (hq : q ≤ 18) (hn : n ≤ 18) :
     Spec.allowedOp (specDivCore tm a p b q n) (outPair (do
       match ← checkedDivRounded prof tm a p b q n with
@@ -318,11 +318,11 @@ theorem div_rounded_spec (hw : WideDiv) (prof : Profile) (tm : Mode) (x y : Dec)
       by_cases ha0 : a = 0
       · simp [ha0, Spec.allowedOp, Dec.ZERO]
       · simp only [ha0, decide_false, Bool.false_eq_true, if_false]
-        exact div_rounded_body hw prof tm a p b q n ⟨hx.1, hx.2.1⟩ ⟨hy.1, hy.2.1⟩ hb0 hx.2.2 hy.2.2 (by omega)
+        exact div_rounded_body hw prof tm a p b q n ⟨hx.1, hx.2.1⟩ ⟨Int.le_of_lt hy.1, hy.2.1⟩ hb0 hx.2.2 hy.2.2 (by omega)
 
-/-- `Decimal.div_rounded(int, n)` (guarded since the D8 repair); `i` any value of the 9 integer types except `i128::MIN` -/
+/-- `Decimal.div_rounded(int, n)` (guarded since the D8 repair); `i` any value of the 9 integer types, `i128::MIN` included (D13 repair) -/
 theorem div_rounded_dec_int_spec (hw : WideDiv) (prof : Profile) (tm : Mode) (x : Dec) (i : Int) (n : Nat) (hx : Dom x)
-    (hi : I128_MIN < i ∧ i ≤ I128_MAX) :
+    (hi : I128_MIN ≤ i ∧ i ≤ I128_MAX) :
     Spec.allowedOp (Spec.divRounded tm x.coeff x.nfrac i 0 n) (outPair (divRoundedDecInt prof tm x i n)) = true := by
   obtain ⟨a, p⟩ := x
   unfold divRoundedDecInt Spec.divRounded
@@ -354,7 +354,7 @@ theorem div_rounded_int_dec_spec (hw : WideDiv) (prof : Profile) (tm : Mode) (i 
       by_cases ha0 : i = 0
       · simp [ha0, Spec.allowedOp, Dec.ZERO]
       · simp only [ha0, if_false]
-        exact div_rounded_body hw prof tm i 0 b q n hi ⟨hy.1, hy.2.1⟩ hb0 (by omega) hy.2.2 (by omega)
+        exact div_rounded_body hw prof tm i 0 b q n hi ⟨Int.le_of_lt hy.1, hy.2.1⟩ hb0 (by omega) hy.2.2 (by omega)
 
 /- FULL STATEMENT (false for the current code — open finding D8):
      ∀ n, allowedOp (Spec.divRounded tm i 0 j 0 n) (outPair (divRoundedIntInt prof tm i j n))
@@ -363,7 +363,7 @@ theorem div_rounded_int_dec_spec (hw : WideDiv) (prof : Profile) (tm : Mode) (i 
 
 /-- `int.div_rounded(int, n)` restricted to `n ≤ 18` -/
 theorem div_rounded_int_int_partial (hw : WideDiv) (prof : Profile) (tm : Mode) (i j : Int) (n : Nat) (hn : n ≤ 18)
-    (hi : I128_MIN < i ∧ i ≤ I128_MAX) (hj : I128_MIN < j ∧ j ≤ I128_MAX) :
+    (hi : I128_MIN < i ∧ i ≤ I128_MAX) (hj : I128_MIN ≤ j ∧ j ≤ I128_MAX) :
     Spec.allowedOp (Spec.divRounded tm i 0 j 0 n) (outPair (divRoundedIntInt prof tm i j n)) = true := by
   unfold divRoundedIntInt Spec.divRounded
   have hn' : ¬ n > 18 := by omega
@@ -499,7 +499,7 @@ theorem quantize_spec (hwm : C02.WideMul) (hwd : WideDiv) (prof : Profile) (tm :
 
 /-- `Decimal.quantize(int)` -/
 theorem quantize_dec_int_spec (hwd : WideDiv) (prof : Profile) (tm : Mode) (x : Dec) (i : Int) (hx : Dom x)
-    (hi : I128_MIN < i ∧ i ≤ I128_MAX) :
+    (hi : I128_MIN ≤ i ∧ i ≤ I128_MAX) :
     Spec.allowedOp (Spec.quantize tm true x.coeff x.nfrac i 0) (outPair (quantizeDecInt prof tm x i)) = true := by
   rw [spec_quantize_eq]
   unfold quantizeDecInt
@@ -523,7 +523,7 @@ theorem quantize_int_dec_spec (hwm : C02.WideMul) (hwd : WideDiv) (prof : Profil
 
 /-- `int.quantize(int)` (`n = 0`, so the missing guard of the int/int shape is irrelevant here) -/
 theorem quantize_int_int_spec (hwd : WideDiv) (prof : Profile) (tm : Mode) (i j : Int)
-    (hi : I128_MIN < i ∧ i ≤ I128_MAX) (hj : I128_MIN < j ∧ j ≤ I128_MAX) :
+    (hi : I128_MIN < i ∧ i ≤ I128_MAX) (hj : I128_MIN ≤ j ∧ j ≤ I128_MAX) :
     Spec.allowedOp (Spec.quantize tm true i 0 j 0) (outPair (quantizeIntInt prof tm i j)) = true := by
   rw [spec_quantize_eq]
   unfold quantizeIntInt
@@ -537,6 +537,9 @@ theorem quantize_int_int_spec (hwd : WideDiv) (prof : Profile) (tm : Mode) (i j 
 example : divRounded Profile.dev .heven ⟨51, 2⟩ ⟨2, 0⟩ 1 = .ok ⟨3, 1⟩ := by decide          -- 0.51 / 2 @1 = 0.3 (was 0.2: D7)
 example : divRounded Profile.dev .up ⟨41, 2⟩ ⟨2, 0⟩ 1 = .ok ⟨3, 1⟩ := by decide
 example : divRoundedDecInt Profile.release .heven ⟨1, 0⟩ 3 19 = .panic .nfrac := by decide   -- D8 repaired shape
+-- D13 repaired: the divisor `i128::MIN` (dev used to panic, release returned `0.1`)
+example : divRoundedDecInt Profile.dev .up ⟨1515, 1⟩ I128_MIN 1 = .ok ⟨-1, 1⟩ := by decide
+example : divRoundedDecInt Profile.release .up ⟨1515, 1⟩ I128_MIN 1 = .ok ⟨-1, 1⟩ := by decide
 example : mulRounded Profile.dev .hup ⟨15, 1⟩ ⟨15, 1⟩ 1 = .ok ⟨23, 1⟩ := by decide
 
 /-! ### translated kernels
